@@ -11,7 +11,7 @@ MUTATORS = {
     "setdefault", "sort", "reverse", "popitem", "__setitem__", "__delitem__",
 }
 
-MAX_PATHS = 6000
+MAX_PATHS = 12000
 
 
 class PathAbort(Exception):
